@@ -366,13 +366,17 @@ func (g *GoBackNConn) sendPacket(ctx context.Context, msg Message,
 		return fmt.Errorf("serialize error: %s", err)
 	}
 
+	// Notify the timeout manager that a message is being sent. This is done
+	// before the packet is handed to the transport: once it is on the wire,
+	// the receive goroutine may process the response at any moment, and it
+	// must find the send time of this packet rather than a left-over of an
+	// earlier packet with the same sequence number.
+	g.timeoutManager.Sent(msg, isResend)
+
 	err = g.cfg.sendToStream(ctx, b)
 	if err != nil {
 		return fmt.Errorf("error calling sendToStream: %s", err)
 	}
-
-	// Notify the timeout manager that a message has been sent.
-	g.timeoutManager.Sent(msg, isResend)
 
 	return nil
 }
